@@ -296,8 +296,11 @@ def gen_script(rng):
 
 def run_shard(shard, rec):
     rng = random.Random(shard["seed"])
-    for _ in range(shard["count"]):
+    for i in range(shard["count"]):
         script = gen_script(rng)
+        if i % 4 == 1:
+            script["snapshots"] = True
+            rec.count("programs_turned_into_a_phase_midway_as_well")
         n = check_script(script, rec, rng, shard["nsched"])
         st = prog.stats(script)
         rec.case(script, nontrivial=bool(n) and n is not True and n >= 2 and st["ops"] >= 5,
